@@ -8,6 +8,9 @@ using namespace vf;
 
 static void buildObject(C3D& c, const std::string& kind) {
     if (kind == "blank") return;
+    if (kind == "huge") {   // > 4 MiB of data, 96 points per frame (more than 1 KiB per frame): sizes at which an implementation may switch to another writing strategy
+        Shape sh; for (int i = 0; i < 96; ++i) { sh.pts.push_back("P" + std::to_string(i)); c.point(sh.pts.back()); } c.parameter("POINT", mkRate(100.f));
+        Frame f0 = buildFrame(sh, 0), f1 = buildFrame(sh, 1); for (int f = 0; f < 3000; ++f) c.frame((f % 2) ? f1 : f0); return; }
     int np = kind == "small" ? 1 : 3, nc = kind == "small" ? 0 : 2, spf = kind == "small" ? 0 : (kind == "big" ? 4 : 2), nf = kind == "small" ? 2 : (kind == "big" ? 150 : 3);
     const char* pn[] = {"A", "B", "C"}; const char* cn[] = {"a", "b"};
     for (int i = 0; i < np; ++i) c.point(pn[i]);
@@ -38,7 +41,7 @@ int main(int argc, char** argv) {
     struct V { std::string sig, obj, plan, detail; }; std::vector<V> viols; std::map<std::string, size_t> outcomes; size_t evals = 0, injectedRuns = 0; std::vector<std::string> samples;
     FILE* f = nullptr; std::string perObject;
     // "over-source": the object is LOADED from the device path, edited, and saved over the file it came from
-    objects.push_back("over-source");
+    objects.push_back("over-source"); objects.push_back("huge");
     for (auto& ok : objects) {
         std::unique_ptr<C3D> holder; std::string path = dev + ok + ".c3d"; std::string original;
         if (ok == "over-source") {
@@ -52,12 +55,13 @@ int main(int argc, char** argv) {
         perObject += (perObject.empty() ? "" : ", ") + ("\"" + ok + "\": {\"bytes\": " + std::to_string(size) + ", \"write_calls\": " + std::to_string(nWrites) + ", \"seeks\": " + std::to_string(vf_stats.seeks) + "}");
         std::vector<Plan> plans;
         for (int e : {ENOENT, EACCES, EROFS}) { Plan p; p.p = base; p.p.openErrno = e; p.text = "open-fails/errno=" + std::to_string(e); plans.push_back(p); }
-        long capStep = (ok == "big" && !thorough) ? 7 : 1;
+        long capStep = (ok == "big" && !thorough) ? 7 : 1; if (ok == "huge") capStep = thorough ? 8191 : 65521;   // (prime-ish steps: every buffer-flush position class is met)
         for (long cap = 0; cap < size; cap += capStep) { Plan p; p.p = base; p.p.capacity = cap; p.text = "capacity=" + std::to_string(cap); plans.push_back(p); }
-        for (long k = 1; k <= nWrites; ++k) for (int e : {EIO, EFBIG}) { Plan p; p.p = base; p.p.failWriteCall = k; p.p.failErrno = e; p.text = "write-call-" + std::to_string(k) + "-fails/errno=" + std::to_string(e); plans.push_back(p); }
+        long kStep = ok == "huge" ? (thorough ? 1 : 5) : 1;   // (the huge object: every 5th of its ~560 write calls in the quick tier, every one in the thorough tier)
+        for (long k = 1; k <= nWrites; k += kStep) for (int e : {EIO, EFBIG}) { if (ok == "huge" && e == EFBIG && !thorough) continue; Plan p; p.p = base; p.p.failWriteCall = k; p.p.failErrno = e; p.text = "write-call-" + std::to_string(k) + "-fails/errno=" + std::to_string(e); plans.push_back(p); }
         { Plan p; p.p = base; p.p.closeFailErrno = EIO; p.text = "close-fails"; plans.push_back(p); }
         { Plan p; p.p = base; p.p.shortMode = -1; p.text = "all-writes-short"; plans.push_back(p); }
-        for (long k = 1; k <= nWrites; ++k) { Plan p; p.p = base; p.p.shortMode = (int)k; p.text = "short-write-" + std::to_string(k); plans.push_back(p); }
+        for (long k = 1; k <= nWrites; k += (ok == "huge" ? (thorough ? 7 : 41) : 1)) { Plan p; p.p = base; p.p.shortMode = (int)k; p.text = "short-write-" + std::to_string(k); plans.push_back(p); }
         if (thorough) {   // pairs: short writes everywhere + one hard fault
             long st = ok == "big" ? 3 : 1;
             for (long cap = 0; cap < size; cap += st) { Plan p; p.p = base; p.p.capacity = cap; p.p.shortMode = -1; p.text = "all-writes-short+capacity=" + std::to_string(cap); plans.push_back(p); }
@@ -66,7 +70,7 @@ int main(int argc, char** argv) {
         }
         {   // every plan again in the two other calling contexts
             size_t n = plans.size();
-            for (auto ctx : {"in-catch-handler", "during-unwinding"}) for (size_t i = 0; i < n; ++i) { if (ok == "big" && i % 5) continue; Plan p = plans[i]; p.text += std::string("@") + ctx; plans.push_back(p); }
+            for (auto ctx : {"in-catch-handler", "during-unwinding"}) for (size_t i = 0; i < n; ++i) { if ((ok == "big" && i % 5) || (ok == "huge" && i % 11)) continue; Plan p = plans[i]; p.text += std::string("@") + ctx; plans.push_back(p); }
         }
         for (auto& pl : plans) {
             if (!one.empty() && one != ok + ":" + pl.text) continue;
